@@ -91,11 +91,58 @@ SPECS = {
     },
 }
 
+TRUST_LAZY = [
+    "Go toolchain 1.23.5 (compiler, runtime, race detector, checkptr)",
+    "refwire (spec-derived field walker) is the only parser on the oracle side; the oracle never calls csproto or lazyproto",
+]
+
+SPECS.update({
+    "C13": {
+        "binary": "wl-lazy", "flavor": "plain", "shards": 16, "run": simple_run,
+        "timeout_quick": 600, "timeout_thorough": 3000, "ulimit_kb": 6 << 20,
+        "floor": 1000,
+        "rule": ("one case = one accessor call (26 typed accessors, each through DecodeResult and through FieldData, plus FieldData/NestedResult/"
+                 "NestedResults/Range/multi-element paths) on the lazy decode of a schema-free well-formed message under a random definition, judged "
+                 "against a table computed from a refwire walk of the same bytes (last occurrence / all occurrences with packed runs expanded / "
+                 "not-found / not-defined / wire-type mismatch / overflow); non-trivial when the message has >=2 fields and the tag is present; "
+                 "distinct by (accessor, wire type of the field, outcome class, mode, entry point, nesting depth)"),
+        "explanation": "messages: 1-12 fields, nesting <=3, all four wire types, repeated and packed runs, empty strings and empty nested messages, field numbers up to 2^29-1, every 50th case the empty message; definitions over present/absent/nested tags with negative twins; entry points Decode function, Decoder safe, Decoder fast; three mutated/random byte strings per message are decoded and every accessor called with only 'no panic' judged",
+        "assumptions": TRUST_LAZY + ["a packed run containing a 10-byte varint with overflow bits is outside the precondition and not judged"],
+    },
+    "C14": {
+        "binary": "wl-lazy", "flavor": "plain", "shards": 16, "run": simple_run,
+        "timeout_quick": 900, "timeout_thorough": 3400, "ulimit_kb": 8 << 20,
+        "floor": 100, "extra_floors": {"recycled_handouts": 200},
+        "rule": ("one case = one operation of a seeded sequence (decode / read everything incl. nested results / close, up to 4 results alive, closes in "
+                 "any order) on one Decoder under an option combination {safe,fast} x max buffer {none,0,1,2,1024} x filter {none,halve,zero,negative}; "
+                 "reads are judged by the C13 oracle for that result's own input; values handed out in safe mode are re-checked after Close and later decodes; "
+                 "the verif hook checks that every pool hand-out is empty (no field data, no closers); non-trivial when a recycled object has been handed "
+                 "out in the process; distinct by (option combination, operation bigram)"),
+        "explanation": "GC is disabled inside the workload (explicit GC every 200 sequences) so that sync.Pool reuse really happens; evidence reports pool_handouts and recycled_handouts as seen by the hook",
+        "assumptions": TRUST_LAZY + ["hook lazyproto.VerifHandOut reports the real internal state at hand-out"],
+    },
+    "C15": {
+        "binary": "wl-lazy", "flavor": "race", "shards": 8, "run": simple_run,
+        "timeout_quick": 900, "timeout_thorough": 3400,
+        "floor": 4, "extra_floors": {"cross_goroutine_handovers": 100},
+        "technique": "runtime monitoring: Go race detector + per-goroutine reference-model oracle under injected yields",
+        "rule": ("one case = one decode/read-all/close iteration of one goroutine on a Decoder shared by G goroutines (G in 2..64, GOMAXPROCS in 1,2,16, "
+                 "safe and fast mode, with and without max buffer), each goroutine on its own marked inputs, every accessor judged by the C13 oracle for "
+                 "that goroutine's input; binary built with -race, reports parsed from GORACE logs; seeded yields/sleeps at four verif points; "
+                 "non-trivial when the result object came from another goroutine; distinct classes = (G, GOMAXPROCS, mode, max buffer) configurations; "
+                 "interleaving diversity reported as distinct 4-grams of the boundary event order"),
+        "explanation": "evidence counters: cross_goroutine_handovers, result_object_reuses, distinct_boundary_4grams, per-site hook hits, race_reports",
+        "assumptions": TRUST_LAZY + ["the race detector only sees races on executions that happened"],
+    },
+})
+
 NOT_APPLICABLE = {}
 
 ENGINES = [
     {"name": "wl-wire", "path": "harness/cmd/wl-wire", "serves_properties": ["C01", "C02", "C03", "C20"],
      "kind_free_text": "workload binary driving csproto.Encoder/Decoder and prototest against refwire+protowire oracles"},
+    {"name": "wl-lazy", "path": "harness/cmd/wl-lazy", "serves_properties": ["C10", "C13", "C14", "C15"],
+     "kind_free_text": "workload binary driving lazyproto (Decode function and Decoder object) against a refwire-derived accessor oracle; pool hand-out hook monitor; shared-decoder stress under -race"},
     {"name": "refwire", "path": "harness/refwire", "serves_properties": ["C01", "C02", "C03", "C13", "C20"],
      "kind_free_text": "spec-derived independent wire codec used as reference"},
     {"name": "driver", "path": "checklib", "serves_properties": [],
